@@ -58,9 +58,86 @@ func load(root, rel string) *pkgInfo {
 	return p
 }
 
+// extractErr is raised by fail inside a `try` scope: the one fact being extracted is left out of the
+// generated file (the Lean modules that use it stop building - and only those) and the extractor
+// goes on with the other facts.
+type extractErr struct{ msg string }
+
+var tryDepth int
+var missingFacts []string
+
 func fail(f string, a ...interface{}) {
+	if tryDepth > 0 {
+		panic(extractErr{fmt.Sprintf(f, a...)})
+	}
 	fmt.Fprintf(os.Stderr, "verifextract: "+f+"\n", a...)
 	os.Exit(1)
+}
+
+// optStr / optStrs: a fact whose content is ALSO compared behaviourally on every run (a table or an
+// exact string read off the running code by the harness, compared with the model by the driver).
+// The syntactic copy is emitted as `some v`, or as `none` when the source no longer has the shape
+// the extractor understands; the theorem about it then says nothing and the behavioural tie stands
+// alone (the check notes this in its evidence).
+var unrecognised []string
+
+func (o *out) optStr(name string, f func() string) {
+	tryDepth++
+	defer func() {
+		tryDepth--
+		if r := recover(); r != nil {
+			e, ok := r.(extractErr)
+			if !ok {
+				panic(r)
+			}
+			fmt.Fprintf(&o.sb, "-- not recognised: %s\ndef %s : Option String := none\n", strings.ReplaceAll(e.msg, "\n", " "), leanIdent(name))
+			unrecognised = append(unrecognised, name+": "+e.msg)
+		}
+	}()
+	v := f()
+	fmt.Fprintf(&o.sb, "def %s : Option String := some %s\n", leanIdent(name), strconv.Quote(v))
+}
+
+func (o *out) optStrs(name string, f func() []string) {
+	tryDepth++
+	defer func() {
+		tryDepth--
+		if r := recover(); r != nil {
+			e, ok := r.(extractErr)
+			if !ok {
+				panic(r)
+			}
+			fmt.Fprintf(&o.sb, "-- not recognised: %s\ndef %s : Option (List String) := none\n", strings.ReplaceAll(e.msg, "\n", " "), leanIdent(name))
+			unrecognised = append(unrecognised, name+": "+e.msg)
+		}
+	}()
+	v := f()
+	var qs []string
+	for _, x := range v {
+		qs = append(qs, strconv.Quote(x))
+	}
+	fmt.Fprintf(&o.sb, "def %s : Option (List String) := some [%s]\n", leanIdent(name), strings.Join(qs, ", "))
+}
+
+// try extracts one fact (or one group that stands or falls together)
+func (o *out) try(what string, f func()) {
+	tryDepth++
+	mark := o.sb.Len()
+	defer func() {
+		tryDepth--
+		if r := recover(); r != nil {
+			e, ok := r.(extractErr)
+			if !ok {
+				panic(r)
+			}
+			keep := o.sb.String()[:mark]
+			o.sb.Reset()
+			o.sb.WriteString(keep)
+			fmt.Fprintf(&o.sb, "-- MISSING %s: %s\n", what, strings.ReplaceAll(e.msg, "\n", " "))
+			missingFacts = append(missingFacts, what+": "+e.msg)
+		}
+	}()
+	f()
 }
 
 // constValue evaluates a constant expression made of literals, other constants of the same
@@ -248,9 +325,21 @@ func main() {
 	// lock/access table of the shared fields (C14)
 	lf, err := lockFactsLean(root)
 	if err != nil {
-		fail("%v", err)
+		// no table: the modules that state something about it stop building, the others do not care
+		missingFacts = append(missingFacts, "LockFacts: "+err.Error())
+		lf = "/- GENERATED by /verif/extract (lockfacts.go): the lock table could NOT be extracted from the current source:\n" +
+			strings.ReplaceAll(err.Error(), "-/", "- /") + "\n-/\nnamespace DnsVerif.Generated.LockFacts\nend DnsVerif.Generated.LockFacts\n"
 	}
 	if err := os.WriteFile(filepath.Join(outDir, "LockFacts.lean"), []byte(lf), 0o644); err != nil {
 		fail("%v", err)
+	}
+	for _, m := range unrecognised {
+		fmt.Fprintf(os.Stderr, "verifextract: NOT-RECOGNISED (behavioural tie only) %s\n", m)
+	}
+	if len(missingFacts) > 0 {
+		for _, m := range missingFacts {
+			fmt.Fprintf(os.Stderr, "verifextract: MISSING %s\n", m)
+		}
+		os.Exit(3)
 	}
 }
